@@ -27,3 +27,72 @@ Definition print_opt_tag (t : option atag) (num : str) : list token :=
   | None => []
   | Some tg => P C_LBRACKET :: print_tag tg num ++ [P C_RBRACKET]
   end.
+
+(* ---------- SIZE and INTEGER ranges ----------
+   A bound is printed as the text [s] that `denotes` it: a numeral the decimal parser maps to the number, or the
+   name of a value reference (anything that is neither a numeral nor the keyword standing for "no bound"). *)
+
+Definition denotes_n (s : str) (b : lit_or_ref N) : Prop :=
+  match b with
+  | Lit n => parse_u64 s = Some n
+  | Ref r => s = r /\ parse_u64 r = None /\ eq_ignore_case r (KW "MIN") = false /\ eq_ignore_case r (KW "MAX") = false
+  end.
+
+Definition ext_toks (e : bool) : list token :=
+  if e then [P C_COMMA; P C_DOT; P C_DOT; P C_DOT] else [].
+
+(* SIZE ( a )  |  SIZE ( a , ... )  |  SIZE ( a .. b )  |  SIZE ( a .. b , ... ) *)
+Definition print_size (s : size (lit_or_ref N)) (sa sb : str) : list token :=
+  match s with
+  | SAny => []
+  | SFix _ e => [T (KW "SIZE"); P C_LPAREN; T sa] ++ ext_toks e ++ [P C_RPAREN]
+  | SRange _ _ e => [T (KW "SIZE"); P C_LPAREN; T sa; P C_DOT; P C_DOT; T sb] ++ ext_toks e ++ [P C_RPAREN]
+  end.
+
+(* the forms the parser maps to themselves: SIZE(0..MAX) is folded to SAny and SIZE(a..a) to SIZE(a) *)
+Definition size_wf (s : size (lit_or_ref N)) (sa sb : str) : Prop :=
+  match s with
+  | SAny => False
+  | SFix a _ => denotes_n sa a
+  | SRange a b _ =>
+      denotes_n sa a /\ denotes_n sb b /\ lor_n_eqb a b = false /\
+      ~ (a = Lit 0 /\ b = Lit I64_MAX_N)
+  end.
+
+Definition denotes_z (kw : str) (s : str) (b : option (lit_or_ref Z)) : Prop :=
+  match b with
+  | None => s = kw
+  | Some (Lit z) => parse_i64 s = Some z
+  | Some (Ref r) => s = r /\ parse_i64 r = None /\ eq_ignore_case r kw = false
+  end.
+
+(* ( lo .. hi )  |  ( lo .. hi , ... )   with MIN / MAX for an absent bound *)
+Definition print_range (r : arange (lit_or_ref Z)) (sa sb : str) : list token :=
+  let '(_, _, e) := r in
+  [P C_LPAREN; T sa; P C_DOT; P C_DOT; T sb] ++ ext_toks e ++ [P C_RPAREN].
+
+(* (0..MAX) and (MIN..i64::MAX) are folded to "unconstrained" by the parser *)
+Definition range_wf (r : arange (lit_or_ref Z)) (sa sb : str) : Prop :=
+  let '(lo, hi, _) := r in
+  denotes_z (KW "MIN") sa lo /\ denotes_z (KW "MAX") sb hi /\
+  ~ (lo = Some (Lit 0%Z) /\ hi = None) /\ ~ (lo = None /\ hi = Some (Lit I64_MAX_Z)).
+
+(* ---------- named numbers / named bits:  { n1 ( v1 ) , n2 ( v2 ) , ... } ----------
+   an item is (name, text of the value, value) *)
+Definition print_item {V : Type} (it : str * str * V) : list token :=
+  [T (fst (fst it)); P C_LPAREN; T (snd (fst it)); P C_RPAREN].
+
+Fixpoint print_items {V : Type} (its : list (str * str * V)) : list token :=
+  match its with
+  | [] => []
+  | [it] => print_item it
+  | it :: r => print_item it ++ P C_COMMA :: print_items r
+  end.
+
+Definition print_constants {V : Type} (its : list (str * str * V)) : list token :=
+  match its with
+  | [] => []
+  | _ => P C_LBRACE :: print_items its ++ [P C_RBRACE]
+  end.
+
+Definition item_value {V : Type} (it : str * str * V) : str * V := (fst (fst it), snd it).
